@@ -55,6 +55,8 @@ fn main() {
             eprintln!("{}", line.split(' ').next().unwrap_or(""));
         }
         writeln!(out, "{}", run_line(&line)).unwrap();
+        // flushed per case so that a hang or abort can be attributed to the case that caused it
+        out.flush().unwrap();
     }
     out.flush().unwrap();
 }
